@@ -13,8 +13,9 @@ T: seeded random histories over random TTL configurations are recorded from the 
 import os
 
 import vlib
+from checks import c15_resolver
 
-BINS = ["drive_cache"]
+BINS = ["drive_cache", "drive_stub"]
 
 B = "[pmin |-> {}, pmax |-> {}, nmin |-> {}, nmax |-> {}]"
 R = '[sec |-> "{}", type |-> "{}", ttl |-> {}]'
@@ -162,6 +163,9 @@ def run(res, tier, seed):
         else:
             cls = "trace-rejected:" + str(ev.get("ev"))
         res.mismatch(cls, {"qtype": ev.get("q", {}).get("type", "?"), "case": str(m["case"])}, m)
+    # ---- resolver API level: TTLs and valid_until of typed lookups and lookup_ip under every strategy
+    # (real Resolver over a scripted connection provider; monitor Trace_LookupTtl on CacheOps)
+    c15_resolver.run(res, tier, seed)
 
 
 def replay(res, path):
